@@ -204,6 +204,10 @@ func (k Keeper) ForceValidatorUnstake(ctx sdk.Ctx, validator types.Validator) sd
 	k.BeforeValidatorUnstaked(ctx, validator.GetAddress())
 	// delete the validator from staking set as they are unstaked
 	k.deleteValidatorFromStakingSet(ctx, validator)
+	// an unstaking validator leaves the unstaking queue: a stale slot would finish a later unstaking early
+	if validator.IsUnstaking() {
+		k.deleteUnstakingValidator(ctx, validator)
+	}
 	// amount unstaked = stakedTokens
 	if validator.StakedTokens.IsPositive() {
 		err := k.burnStakedTokens(ctx, validator.StakedTokens)
